@@ -402,6 +402,30 @@ def load(cfg):
                 if name not in fx._raw:
                     fx._alias[name] = callers[0]
             rep["absorbed_fns"].append("%s (now part of %s)" % (m, callers[0]))
+    # an `async` block (or closure) of the baseline that became the body of a new `async fn` / a new function: the baseline key
+    # answers with that body, and the new function is reported under the baseline name where callers / constructors are listed
+    rep["moved_bodies"] = []
+    fx._moved = {}
+    cur_keys = set(fx._raw)
+    gone = [k for k in base["fns"] if CLOSURE_RX.search(k) and k not in cur_keys and k not in fx._alias and CLOSURE_RX.sub("", k) in cur_keys]
+    cands = [k for k in fx.new_fns if k in cur and not CLOSURE_RX.search(k[:-len("::{closure#0}")] if k.endswith("::{closure#0}") else k + "{closure#") and k in cur_keys] if False else \
+        [k for k in fx.new_fns if k in cur_keys and (not CLOSURE_RX.search(k) or (k.endswith("::{closure#0}") and not CLOSURE_RX.search(k[:-len("::{closure#0}")])))]
+    cs = snapshot(fx)["fns"]
+    used = set()
+    for g in sorted(gone):
+        bg = base["fns"][g]
+        if not bg["calls"]:
+            continue
+        best = sorted(((_jaccard(cs[c]["calls"], bg["calls"]), c) for c in cands if c not in used and c in cs and cs[c]["sig"][1] == bg["sig"][1]), reverse=True)
+        if best and best[0][0] >= 0.6 and (len(best) == 1 or best[0][0] > best[1][0]):
+            c = best[0][1]
+            used.add(c)
+            fx._alias[g] = c
+            fx._moved[c] = g
+            rep["moved_bodies"].append("%s (now %s)" % (g, c))
+    if fx._moved:
+        fx._callers = None
+        fx._aggsites = None
     rep["baseline"] = os.path.relpath(os.path.join(BASE_DIR, cfg + ".json"), VERIF)
     fx.normalisation = rep
     return fx
